@@ -309,3 +309,8 @@ package linker
 // property names it uses un-mangled (AST.ReservedProps) to the set the minifier must avoid, whatever else is true of the
 // file: nothing but "is it a JS file" may exempt a file.
 //@ guarded every-file-reserves-its-property-names C15: func=(*linkerContext).mangleProps ; in=linker ; site=range *.ReservedProps ; scenario=mangle_props_cross_file_collision ; allow-only=true:phi:rangeindex+1<call len(c.graph.ReachableFiles) && true:*.Repr#1 && false:next(*)#0 && false:c.graph.ReachableFiles[*]==0
+
+// C12 ("CSS-module local names are renamed ... without collisions"): the name a local CSS name is turned into is, at
+// the moment it is recorded, neither a global name of the bundle nor a name already given to another local: on every
+// path into the recording both tables were consulted for THAT name and said no.
+//@ guarded local-css-name-is-unused C12: func=(*linkerContext).mangleLocalCSS ; in=linker ; site=mapupdate *angledProps* ; scenario=css_local_name_collides_with_global ; require-any=false:globalNames[*] && false:usedLocalNames[*]
